@@ -1,6 +1,7 @@
 import PyttbModel.Core.Codec
 import PyttbModel.Alg.GcpFg
 import PyttbModel.Generated.Handles
+import PyttbModel.Spec.GcpSampled
 open Lean Pyttb Pyttb.Codec
 namespace Pyttb.Driver
 namespace C12
@@ -24,6 +25,10 @@ def magF (x p m : Float) : Expr → Float
   | .div a b => magF x p m a / Float.abs (b.evalF x p m)
   | .neg a | .abs a => magF x p m a
   | .powNat a n => Float.pow (magF x p m a) (Float.ofNat n)
+  -- a rounding error of the argument is amplified by 1 / argument (`log(1 + m)` vs `log1p(m)`)
+  | .log a => Float.abs (Float.log (a.evalF x p m)) + magF x p m a / Float.abs (a.evalF x p m)
+  | .sqrt a => Float.sqrt (magF x p m a)
+  | .ite c a b => if c.evalF x p m == 0 then magF x p m b else magF x p m a
   | e => Float.abs (e.evalF x p m)
 
 /-- polynomial stand-in (loss, gradient) pairs, exact over the rationals; the harness
@@ -70,17 +75,33 @@ open C12
 
 def ops12 : List (String × Op) := [
   -- generated handle expression (or its symbolic derivative) evaluated in doubles
+  -- the expression is named either by its Python name (`name`) or as a cell of the selection table
+  -- (`obj` + `which` = "fn" | "grad": what `fg_setup.setup` returns for that objective, however it is
+  -- wrapped in the source)
   ("gcp_expr", fun j => do
-    let name ← field j "name" >>= asStr
     let deriv ← field j "deriv" >>= asBool
     let pts ← field j "pts" >>= asList (asList asFloatBits)
-    match Handles.byName.lookup name with
+    let e? : Option Expr ← (match fieldOpt j "obj" with
+      | some oj => do
+        let on ← asStr oj
+        let which ← field j "which" >>= asStr
+        match Objective.all.find? (fun o => o.name == on) with
+        | none => pure none
+        | some o =>
+          let row := Handles.setupTable o
+          pure (some (if which == "grad" then row.grad else row.fn))
+      | none => do
+        let name ← field j "name" >>= asStr
+        pure (Handles.byName.lookup name))
+    match e? with
     | none => .ok Json.null   -- no such handle in the current source
     | some e =>
-      let e := if deriv then e.D else e
+      let e' := if deriv then e.D else e
       .ok (listJ (fun (pt : List Float) =>
-        Json.arr #[floatBitsJ (e.evalF (pt.getD 0 0) (pt.getD 1 0) (pt.getD 2 0)),
-                   floatBitsJ (magF (pt.getD 0 0) (pt.getD 1 0) (pt.getD 2 0) e)]) pts)),
+        Json.arr #[floatBitsJ (e'.evalF (pt.getD 0 0) (pt.getD 1 0) (pt.getD 2 0)),
+                   floatBitsJ (magF (pt.getD 0 0) (pt.getD 1 0) (pt.getD 2 0) e'),
+                   -- is the point a switching point of the expression itself (not of its derivative)?
+                   Json.bool (e.onKink (pt.getD 0 0) (pt.getD 1 0) (pt.getD 2 0))]) pts)),
   ("gcp_table", fun _ =>
     .ok (listJ (fun (o : Objective) =>
       let row := Handles.setupTable o
@@ -116,7 +137,29 @@ def ops12 : List (String × Op) := [
     let w ← field j "w" >>= asRats
     let crng ← optNats j "crng"
     let (f, g) ← pickHandles j
-    .ok (exceptJ fgJ (estimate K subs xv w f g crng)))
+    .ok (exceptJ fgJ (estimate K subs xv w f g crng))),
+  -- the specification of the sampled estimator (Spec/GcpSampled.lean), executed: the weighted sample sum with
+  -- the correction range and its partial derivatives entry by entry (no rejection logic: a total function)
+  ("gcp_sampled_spec", fun j => do
+    let K ← field j "K" >>= asKtensor
+    let subs ← field j "subs" >>= asNatMat
+    let xv ← field j "xvals" >>= asRats
+    let w ← field j "w" >>= asRats
+    let crng ← optNats j "crng"
+    let (f, g) ← pickHandles j
+    .ok (fgJ ⟨f.map (sampledObjective K subs xv w crng), g.map (sampledGrad K subs xv w crng)⟩)),
+  -- the specification of a masked evaluation: which entries the mask keeps, whether it is a 0/1 array, and the
+  -- loss summed over the kept entries only
+  ("gcp_masked_spec", fun j => do
+    let K ← field j "K" >>= asKtensor
+    let X ← field j "X" >>= asDense
+    let W ← field j "W" >>= asDense
+    let name ← field j "handle" >>= asStr
+    match standIn name with
+    | none => .error s!"unknown stand-in handle {name}"
+    | some (f, _) =>
+      .ok (Json.mkObj [("F", ratJ (maskedObjective K X W f)), ("unmasked", natMatJ (unmasked W)),
+        ("isMask", Json.bool ((allSubs W.shape).all fun i => W.get i == 0 || W.get i == 1))]))
 ]
 
 end Pyttb.Driver
